@@ -52,7 +52,7 @@ where
         self.n_observed_values += 1;
         let weight = self.alpha / (T::one() + T::from(self.window_len).expect("can convert"));
 
-        if self.last_ema == T::zero() {
+        if self.n_observed_values == 1 {
             self.out = val;
             self.last_ema = val;
             return;
